@@ -48,6 +48,27 @@ def _check(args):
     cand = None
     reason = ''
     try:
+        if not expect_sat:
+            # stages with fewer hypotheses (a proof from a subset of the hypotheses is still a proof):
+            # all quantifier-free hypotheses, plus only the k most recent quantified ones
+            full = z3.parse_smt2_string(smt)
+            goal_neg = full[len(full) - 1]
+            qf, quant = [], []
+            for a in list(full)[:-1]:
+                sx = a.sexpr()
+                (quant if ('(forall ' in sx or '(exists ' in sx) else qf).append(a)
+            for k, share in ((0, 0.08), (4, 0.08), (12, 0.1), (40, 0.12)):
+                if k and k >= len(quant):
+                    break
+                s0 = z3.Solver()
+                s0.set('timeout', max(200, int(timeout_ms * share)))
+                s0.set('smt.mbqi', False)
+                s0.add(*qf)
+                if k:
+                    s0.add(*quant[-k:])
+                s0.add(goal_neg)
+                if s0.check() == z3.unsat:
+                    return (name, PROVED, time.time() - t0, None, 'z3:hyps-qf+last%dq' % k)
         for opts, share in PORTFOLIO:
             s = z3.Solver()
             s.set('timeout', max(200, int(timeout_ms * share)))
